@@ -516,7 +516,7 @@ impl<'a> Ctx<'a> {
         let mut judgements = vec![];
         // no report to compare with when scrut bailed out, crashed or was stopped
         let no_report = match self.sc.tier {
-            Tier::Cli => self.sc.pretty || self.obs.exit_status == Some(1) || self.obs.exit_signal.is_some() || self.obs.sim_abort.is_some() || self.obs.exit_status.is_none(),
+            Tier::Cli => self.sc.pretty || self.sc.cli.command.is_some() || self.obs.exit_status == Some(1) || self.obs.exit_signal.is_some() || self.obs.sim_abort.is_some() || self.obs.exit_status.is_none(),
             Tier::Lib => {
                 self.obs.sim_abort.is_some()
                     || self.obs.panic.is_some()
